@@ -4,6 +4,7 @@ import ast
 
 from ..core import RuleResult, need
 from ..cfg import cfg_of
+from ..flow import flow_of
 from ..astutil import src, call_attr, call_name, compare_parts, is_name, path_of, walk_no_nested, self_attr_stores
 from ..repo import dotted
 
@@ -207,6 +208,7 @@ def rule_n5(repo):
     res = RuleResult('C09.N5', 'Type.match_incr completes, for each kind of pattern type, only behind the equality / constructor tests against the target', floor=4)
     f = repo.func(TYPE, 'Type.match_incr')
     cfg = cfg_of(f.node)
+    n5flow = flow_of(f.node)
     params = f.params()
     need(len(params) >= 3, 'Type.match_incr: parameters changed')
     T, inst = params[1], params[2]
@@ -221,7 +223,7 @@ def rule_n5(repo):
             cp = compare_parts(e)
             if not cp or cp[0] not in (ast.Eq, ast.NotEq):
                 return False
-            l, r = src(cp[1]), src(cp[2])
+            l, r = src(n5flow.inline(cp[1])), src(n5flow.inline(cp[2]))     # `assigned = tyinst[self.name]; T != assigned`
             if not ((a_ok(l) and b_ok(r)) or (a_ok(r) and b_ok(l))):
                 return False
             return pol if cp[0] is ast.Eq else not pol
